@@ -334,6 +334,20 @@ func isDecodeCall(c ssa.CallInstruction) bool {
 	return strings.HasSuffix(n, "protojson.Unmarshal") || strings.HasSuffix(n, "proto.Unmarshal") || strings.HasSuffix(n, "UnmarshalOptions).Unmarshal")
 }
 
+// isDecodeCallDeep: a decode call, or a call of a transparent helper that performs one.
+func (p *Program) isDecodeCallDeep(c ssa.CallInstruction) bool {
+	if isDecodeCall(c) {
+		return true
+	}
+	if callee := c.Common().StaticCallee(); callee != nil && !c.Common().IsInvoke() && p.isTransparent(callee) {
+		return p.callMay(c, func(in ssa.Instruction) bool {
+			cc, ok := in.(ssa.CallInstruction)
+			return ok && isDecodeCall(cc)
+		})
+	}
+	return false
+}
+
 func ruleDecodeThenParams(r *Run) {
 	p := r.P
 	for _, typ := range []string{"streamHTTP", "streamWS"} {
@@ -353,7 +367,7 @@ func ruleDecodeThenParams(r *Run) {
 			var hit ssa.Instruction
 			q := pathQuery{fn: fn, start: si, target: func(x ssa.Instruction) bool {
 				c, ok := x.(ssa.CallInstruction)
-				if ok && isDecodeCall(c) {
+				if ok && p.isDecodeCallDeep(c) {
 					hit = x
 					return true
 				}
@@ -381,7 +395,7 @@ func ruleDecodeThenParams(r *Run) {
 		// a decode must be able to precede set (i.e. decode is not placed on a disjoint path only)
 		nDec := 0
 		eachInstr(fn, func(in ssa.Instruction) {
-			if c, ok := in.(ssa.CallInstruction); ok && isDecodeCall(c) {
+			if c, ok := in.(ssa.CallInstruction); ok && p.isDecodeCallDeep(c) {
 				nDec++
 				reaches := false
 				for _, s := range sets {
